@@ -643,5 +643,201 @@ Section Sent.
     cbn [pbind]. eexists. split; [reflexivity|]. cbn [step s_mid]. rewrite Hm.
     apply at_set_mid with (m := m). split; [apply wf_step, Hwf | split; [now apply rest_step | exact Hm]].
   Qed.
+
+  (* ---------------- consume_one: the `first_method_ok!` back-off chain ---------------- *)
+  Lemma try_skip orig guard br k cur : guard cur = false -> try_branch F orig guard br k cur = k cur.
+  Proof. intros H. unfold try_branch. now rewrite H. Qed.
+  Lemma try_take orig guard br k cur st' :
+    guard cur = true -> br (restore F orig cur) = POk tt st' -> try_branch F orig guard br k cur = POk tt st'.
+  Proof. intros H Hb. unfold try_branch. now rewrite H, Hb. Qed.
+  Lemma try_fail orig guard br k cur st' :
+    guard cur = true -> br (restore F orig cur) = PErr st' -> try_branch F orig guard br k cur = k st'.
+  Proof. intros H Hb. unfold try_branch. now rewrite H, Hb. Qed.
+
+  Lemma perr_err {A} (st : pstate) : perr F st = (PErr st : pres A).
+  Proof. unfold perr. now rewrite (err_window_ok_true F sk_facts). Qed.
+
+  Lemma find_arm_none {A} (arms : list ((efmt -> str) * A)) (st : pstate) :
+    (forall g a, In (g, a) arms -> starts (g E) (s_rest st) = false) -> find_arm F E arms st = None.
+  Proof.
+    induction arms as [|[g a] arms IH]; intros H; cbn [find_arm]; [reflexivity|].
+    rewrite st_starts_false by (apply (H g a); now left). apply IH. intros g' a' Hin. apply (H g' a'). now right.
+  Qed.
+
+  Lemma diverge_ne a b : diverge a b = true -> b <> [].
+  Proof. destruct a, b; cbn; congruence. Qed.
+
+  (* a failed punctuation attempt leaves the state as it was *)
+  Lemma punct_fails L st T R m : at_ L st (T ++ R) m ->
+    all_arms punct_arms (fun i => diverge (punct_kw E i) T) = true -> consume_punctuation F E st = PErr st.
+  Proof.
+    intros (Hwf & Hr & Hm) Hall. unfold consume_punctuation. rewrite find_arm_none; [apply perr_err|].
+    intros g a Hin. apply in_map_iff in Hin as ([[g' sk] p] & Heq & Hin). cbn [fst snd] in Heq. injection Heq as <- <-.
+    apply In_nth_error in Hin as [i Hi]. pose proof (all_arms_nth _ _ _ _ Hall Hi) as Hd. cbn beta in Hd.
+    unfold punct_kw in Hd. rewrite Hi in Hd. rewrite Hr. now apply diverge_starts.
+  Qed.
+
+  Lemma punct_branch L st T R m (K : pstate -> pres unit) : at_ L st (T ++ R) m -> m_term F m <> None ->
+    all_arms punct_arms (fun i => diverge (punct_kw E i) T) = true ->
+    try_branch F st (fun c => is_none (m_term F (s_mid c))) (consume_term F is_alnum E)
+      (try_branch F st (fun c => is_none (m_punct F (s_mid c))) (consume_punctuation F E) K) st = K st.
+  Proof.
+    intros Hat Ht Hall. pose proof Hat as (Hwf & Hr & Hm).
+    rewrite try_skip by (cbv beta; rewrite Hm; destruct (m_term F m); [reflexivity | congruence]).
+    destruct (m_punct F m) as [p|] eqn:Hp.
+    - apply try_skip. cbv beta. now rewrite Hm, Hp.
+    - apply try_fail; [cbv beta; now rewrite Hm, Hp|]. rewrite restore_same. eapply punct_fails; eauto.
+  Qed.
+
+  Lemma stamp_branch L st T R m (K : pstate -> pres unit) : at_ L st (T ++ R) m -> nsp (T ++ R) -> T <> [] ->
+    stamp_clear E T = true ->
+    try_branch F st (fun c => st_starts F (sentence_stamp_brackets_0 E) c && is_none (m_stamp F (s_mid c)))
+      (consume_stamp F E) K st = K st.
+  Proof.
+    intros Hat Hn HT Hc. pose proof Hat as (Hwf & Hr & Hm). unfold stamp_clear in Hc.
+    destruct (m_stamp F m) as [s|] eqn:Hs.
+    { apply try_skip. cbv beta. rewrite Hm, Hs. apply andb_false_r. }
+    destruct (sentence_stamp_brackets_0 E) as [|c r] eqn:Hb.
+    - apply try_fail.
+      + cbv beta. rewrite Hm, Hs, andb_true_r. apply (st_starts_app L [] (T ++ R) st Hwf Hr).
+        assert (s_head st < L)%nat; [|lia]. apply head_lt; [exact Hwf|]. rewrite Hr. destruct T; [congruence | discriminate].
+      + rewrite restore_same. unfold consume_stamp, skip_and_spaces. rewrite Hb. unfold skip. cbn [length]. rewrite step_0.
+        rewrite (skip_spaces_none L st _ m Hat Hn). rewrite find_arm_none; [apply perr_err|].
+        intros g a Hin. apply in_map_iff in Hin as ([[g' sk] kd] & Heq & Hin). cbn [fst snd] in Heq. injection Heq as <- <-.
+        apply In_nth_error in Hin as [i Hi]. pose proof (all_arms_nth _ _ _ _ Hc Hi) as Hd. cbn beta in Hd.
+        unfold stamp_marker in Hd. rewrite Hi in Hd. rewrite Hr. now apply diverge_starts.
+    - apply try_skip. cbv beta. rewrite st_starts_false; [reflexivity|]. rewrite Hr. now apply diverge_starts.
+  Qed.
+
+  Lemma consume_budget_err L st st' : wf L st -> consume_budget F fread fzero in01 E st = PErr st' ->
+    wf L st' /\ s_mid st' = s_mid st.
+  Proof.
+    intros Hwf He. split.
+    { pose proof (consume_budget_good F fread fzero in01 E sk_total sk_facts L st Hwf) as Hg. rewrite He in Hg. exact Hg. }
+    revert He. unfold consume_budget, parse_floats.
+    pose proof (floats_same F fread E (length (s_rest (skip_and_spaces F E (task_budget_brackets_0 E) st)) + 3 + 1) 3
+                  (task_budget_separator E) (task_budget_brackets_1 E) [] [] (skip_and_spaces F E (task_budget_brackets_0 E) st)) as Hs.
+    destruct (floats_loop F fread E _ 3 _ _ [] [] _) as [l st2|st2| |]; cbn [pbind]; cbn [same] in Hs; try discriminate.
+    - destruct Hs as [Hs _]. rewrite mid_skip_and_spaces in Hs.
+      destruct (negb (forallb in01 (pad F fzero 3 l))).
+      + rewrite perr_err. intros H; injection H as <-. exact Hs.
+      + destruct (mk_budget F in01 l); [|discriminate].
+        destruct budget_requires_close; [|discriminate].
+        destruct (st_starts F (task_budget_brackets_1 E) (skip_spaces F E st2)); [discriminate|].
+        rewrite perr_err. intros H; injection H as <-. now rewrite mid_skip_spaces.
+    - rewrite mid_skip_and_spaces in Hs. intros H; injection H as <-. exact Hs.
+  Qed.
+
+  Notation C1 := (consume_one F fread fzero in01 is_alnum E).
+
+  Lemma one_budget L st nm b k m :
+    at_ L st (render_budget E nm ++ k) m -> m_budget F m = None -> obudget F fread in01 nm = Some b ->
+    exists st', C1 st = POk tt st' /\ at_ L st' k (mid_set_budget F m b).
+  Proof.
+    intros Hat Hmb Hb. pose proof Hat as (Hwf & Hr & Hm).
+    unfold render_budget, render_nums in Hr. rewrite <- app_assoc in Hr.
+    unfold consume_one.
+    rewrite try_skip by (cbv beta; apply st_starts_false; rewrite Hr; apply diverge_starts, sk_sp_b0).
+    destruct (consume_budget_ok L st nm b k m Hat Hb) as (st' & Hc & Hat').
+    exists st'. split; [|exact Hat']. apply try_take.
+    - cbv beta. now rewrite (st_starts_app_ne L _ _ st Hwf Hr b0_ne), Hm, Hmb.
+    - now rewrite restore_same.
+  Qed.
+
+  Lemma one_term L st t v k m :
+    at_ L st (render E t ++ k) m -> nsp (render E t ++ k) -> m_term F m = None ->
+    odesugar t = Some v -> unamb t k = true ->
+    (m_budget F m <> None \/ starts (task_budget_brackets_0 E) (render E t ++ k) = false \/
+     exists st', consume_budget F fread fzero in01 E st = PErr st') ->
+    exists st', C1 st = POk tt st' /\ at_ L st' k (mid_set_term F m v).
+  Proof.
+    intros Hat Hn Hmt Hv Hu Hbud. pose proof Hat as (Hwf & Hr & Hm).
+    unfold consume_one.
+    rewrite try_skip by (cbv beta; apply st_starts_false; now rewrite Hr).
+    destruct (consume_term_ok L st t v k m Hat Hv Hu) as (st' & Hc & Hat').
+    exists st'. split; [|exact Hat'].
+    set (K := try_branch F st (fun c => is_none (m_term F (s_mid c))) (consume_term F is_alnum E) _).
+    assert (HK : forall cur, wf L cur -> s_mid cur = s_mid st -> K cur = POk tt st').
+    { intros cur Hwfc Hmc. unfold K. apply try_take; [cbv beta; now rewrite Hmc, Hm, Hmt|].
+      replace (restore F st cur) with st; [exact Hc|]. apply pstate_eq; cbn; auto.
+      destruct Hwf as [-> _]. destruct Hwfc as [-> _]. reflexivity. }
+    destruct Hbud as [H|[H|[st'' H]]].
+    - rewrite try_skip; [now apply HK|]. cbv beta. rewrite Hm. destruct (m_budget F m); [apply andb_false_r | congruence].
+    - rewrite try_skip; [now apply HK|]. cbv beta. rewrite st_starts_false; [reflexivity | now rewrite Hr].
+    - destruct (st_starts F (task_budget_brackets_0 E) st && is_none (m_budget F (s_mid st))) eqn:Hg.
+      + rewrite (try_fail _ _ _ _ _ st''); [| exact Hg | now rewrite restore_same].
+        destruct (consume_budget_err L st st'' Hwf H) as [Hw Hmm]. now apply HK.
+      + rewrite try_skip; [now apply HK | exact Hg].
+  Qed.
+
+  Lemma one_punct L st a p k m :
+    at_ L st (punct_kw E a ++ k) m -> m_term F m <> None -> m_punct F m = None -> opunct a = Some p ->
+    exists st', C1 st = POk tt st' /\ at_ L st' k (mid_set_punct F m p).
+  Proof.
+    intros Hat Hmt Hmp Hp. pose proof Hat as (Hwf & Hr & Hm).
+    destruct (punct_arm_spec a p Hp) as (g & sk & Hnth & _).
+    unfold consume_one.
+    rewrite try_skip by (cbv beta; apply st_starts_false; rewrite Hr; apply diverge_starts, (all_arms_nth _ _ _ _ sk_sp_punct Hnth)).
+    rewrite try_skip by (cbv beta; rewrite st_starts_false; [reflexivity | rewrite Hr; apply diverge_starts, (all_arms_nth _ _ _ _ sk_b0_punct Hnth)]).
+    rewrite try_skip by (cbv beta; rewrite Hm; destruct (m_term F m); [reflexivity | congruence]).
+    destruct (consume_punct_ok L st a p k m Hat Hp) as (st' & Hc & Hat').
+    exists st'. split; [|exact Hat']. apply try_take; [cbv beta; now rewrite Hm, Hmp | now rewrite restore_same].
+  Qed.
+
+  Lemma render_stamp_first x :
+    nonempty (sentence_stamp_brackets_0 E) || Nat.eqb (ss_sp0 x) 0 = true ->
+    exists R, render_stamp E x = stamp_first E (ss_arm x) ++ R.
+  Proof.
+    unfold render_stamp, stamp_first. destruct (sentence_stamp_brackets_0 E) as [|c r]; cbn [nonempty orb]; intros H.
+    - apply Nat.eqb_eq in H. rewrite H. cbn [Sst.sp rep app]. eauto.
+    - eauto.
+  Qed.
+
+  Lemma one_stamp L st x sv g B m :
+    at_ L st (render_stamp E x ++ sp g ++ B) m -> nsp B ->
+    (sentence_stamp_brackets_1 E = [] -> first_not is_int_char B = true) ->
+    nonempty (sentence_stamp_brackets_0 E) || Nat.eqb (ss_sp0 x) 0 = true ->
+    m_term F m <> None -> m_stamp F m = None -> ostamp x = Some sv ->
+    exists j st', C1 st = POk tt st' /\ at_ L st' (sp j ++ B) (mid_set_stamp F m sv).
+  Proof.
+    intros Hat HB HBi Hnf Hmt Hms Hsv. pose proof Hat as (Hwf & Hr & Hm).
+    assert (Hk : exists kd, stamp_kind (ss_arm x) = Some kd).
+    { unfold ostamp in Hsv. destruct (stamp_kind (ss_arm x)); [eauto | discriminate]. }
+    destruct Hk as (kd & Hk). destruct (stamp_arm_spec _ _ Hk) as (g0 & sk & Hnth & _).
+    destruct (render_stamp_first x Hnf) as (R & HR).
+    assert (Hr' : s_rest st = stamp_first E (ss_arm x) ++ (R ++ sp g ++ B)) by (rewrite Hr, HR, <- app_assoc; reflexivity).
+    assert (Hat0 : at_ L st (stamp_first E (ss_arm x) ++ (R ++ sp g ++ B)) m) by (split; [exact Hwf | split; [exact Hr' | exact Hm]]).
+    pose proof (all_arms_nth _ _ _ _ sk_sp_stamp Hnth) as Hd1. cbn beta in Hd1.
+    unfold consume_one.
+    rewrite try_skip by (cbv beta; apply st_starts_false; rewrite Hr'; now apply diverge_starts).
+    rewrite try_skip by (cbv beta; rewrite st_starts_false; [reflexivity | rewrite Hr'; apply diverge_starts, (all_arms_nth _ _ _ _ sk_b0_stamp Hnth)]).
+    rewrite (punct_branch L st _ _ m _ Hat0 Hmt).
+    2:{ unfold all_arms. apply forallb_forall. intros i Hi. pose proof sk_punct_stamp as Hps. unfold all_arms at 1 in Hps.
+        rewrite forallb_forall in Hps. apply (all_arms_nth _ _ _ _ (Hps i Hi) Hnth). }
+    destruct (consume_stamp_ok L st x sv g B m Hat HB HBi Hsv) as (j & st' & Hc & Hat').
+    exists j, st'. split; [|exact Hat']. apply try_take; [|now rewrite restore_same].
+    cbv beta. rewrite Hm, Hms, andb_true_r. unfold render_stamp in Hr. rewrite <- app_assoc in Hr.
+    apply (st_starts_app L _ _ st Hwf Hr).
+    assert (s_head st < L)%nat; [|lia]. apply head_lt; [exact Hwf|]. rewrite Hr'.
+    pose proof (diverge_ne _ _ Hd1). destruct (stamp_first E (ss_arm x)); [congruence | discriminate].
+  Qed.
+
+  Lemma one_truth L st nm t k m :
+    at_ L st (render_truth E nm ++ k) m -> m_term F m <> None -> m_truth F m = None ->
+    otruth F fread in01 nm = Some t ->
+    exists st', C1 st = POk tt st' /\ at_ L st' k (mid_set_truth F m t).
+  Proof.
+    intros Hat Hmt Hmtr Ht. pose proof Hat as (Hwf & Hr & Hm).
+    unfold render_truth, render_nums in Hr. rewrite <- app_assoc in Hr.
+    assert (Hat0 : at_ L st (sentence_truth_brackets_0 E ++ _) m) by (split; [exact Hwf | split; [exact Hr | exact Hm]]).
+    unfold consume_one.
+    rewrite try_skip by (cbv beta; apply st_starts_false; rewrite Hr; apply diverge_starts, sk_sp_t0).
+    rewrite try_skip by (cbv beta; rewrite st_starts_false; [reflexivity | rewrite Hr; apply diverge_starts, sk_b0_t0]).
+    rewrite (punct_branch L st _ _ m _ Hat0 Hmt sk_punct_t0).
+    rewrite (stamp_branch L st _ _ m _ Hat0 (nsp_div _ _ sk_sp_t0) t0_ne sk_stamp_t0).
+    destruct (consume_truth_ok L st nm t k m Hat Ht) as (st' & Hc & Hat').
+    exists st'. split; [|exact Hat']. apply try_take; [|now rewrite restore_same].
+    cbv beta. now rewrite (st_starts_app_ne L _ _ st Hwf Hr t0_ne), Hm, Hmtr.
+  Qed.
 (*MARK*)
 End Sent.
